@@ -27,6 +27,18 @@
 //! created on other threads must be rejected by every other context, and the older handles
 //! of the lent context are re-fingerprinted afterwards.
 //!
+//! User constructors of EVERY outcome (section user-constructor-outcomes, and constructor ids 6..12
+//! of the histories): accepting, refusing always / for some parameter texts only, with each public
+//! Error variant, under every built-in name, stand-alone / pipeline step / macro body, Minimal and
+//! Plain. Resolution stops at the user-registered operator: op() returns what the user constructor
+//! returned (logged by the constructor itself) - its operator or its error, never the built-in.
+//!
+//! WHEN the directory tree and the files appear (sections late-tree-orderings / late-tree-histories):
+//! a tree of its own per case (cwd + XDG_DATA_HOME switched under a lock), context creation, creation
+//! of empty directory levels, file creation / replacement / removal and look-ups in every order, for
+//! registers, stand-alone files and grids in both search locations. A look-up finds what the file
+//! system holds at the time of the look-up (grids: cached by name once loaded, as documented).
+//!
 //! Arithmetic of built-in primitives is taken from a pristine thread-local reference
 //! context (GridCtx, in-memory grids, never mutated after set-up); the model decides WHICH
 //! primitive with WHICH constant in WHICH order/direction; user operators are computed
@@ -104,6 +116,139 @@ fn ctor(j: u8) -> OpConstructor {
         3 => OpConstructor(uc3),
         4 => OpConstructor(uc4),
         _ => OpConstructor(uc5),
+    }
+}
+
+// ---- 1b. User constructors of EVERY outcome -------------------------------------------
+//
+// A user constructor need not accept: it may refuse always, or for some parameter texts only,
+// with any public `Error` variant. What it returned (for which step text) is written to a
+// thread-local log, so the oracle knows exactly what the documented resolution order obliges
+// `op()` to hand back for a definition naming a user-registered operator.
+
+thread_local! {
+    static UCTOR_LOG: RefCell<Vec<(String, Result<(), String>)>> = const { RefCell::new(Vec::new()) };
+}
+fn uctor_log_take() -> Vec<(String, Result<(), String>)> {
+    UCTOR_LOG.with(|l| std::mem::take(&mut *l.borrow_mut()))
+}
+
+const ERROR_VARIANTS: [&str; 16] = [
+    "MissingParam", "BadParam", "General", "Syntax", "NotFound(own-name)", "NotFound(other)", "Unsupported", "Invalid",
+    "Operator", "Unknown", "NonInvertible", "Recursion", "InvalidHeader", "Unexpected", "Io", "Utf8Error",
+];
+
+fn make_error(v: u8, name: &str, def: &str) -> Error {
+    match v % 16 {
+        0 => Error::MissingParam("by".to_string()),
+        1 => Error::BadParam("by".to_string(), "refused by the user constructor".to_string()),
+        2 => Error::General("refused by the user constructor"),
+        3 => Error::Syntax(format!("refused by the user constructor: {def}")),
+        4 => Error::NotFound(name.to_string(), ": refused by the user constructor".to_string()),
+        5 => Error::NotFound("something-the-user-constructor-needs".to_string(), String::new()),
+        6 => Error::Unsupported(format!("refused by the user constructor: {name}")),
+        7 => Error::Invalid("refused by the user constructor".to_string()),
+        8 => Error::Operator("userop", "refused by the user constructor"),
+        9 => Error::Unknown,
+        10 => Error::NonInvertible(def.to_string()),
+        11 => Error::Recursion(name.to_string(), def.to_string()),
+        12 => Error::InvalidHeader { expected: "user".to_string(), found: "refusal".to_string() },
+        13 => Error::Unexpected { message: "refused by the user constructor".to_string(), expected: "by".to_string(), found: String::new() },
+        14 => Error::Io(std::io::Error::new(std::io::ErrorKind::NotFound, "refused by the user constructor")),
+        _ => Error::Utf8Error(String::from_utf8(vec![0xffu8, 0xfe]).unwrap_err().utf8_error()),
+    }
+}
+
+pub const RGAMUT_OPT: [OpParameter; 2] = [OpParameter::Flag { key: "inv" }, OpParameter::Real { key: "by", default: Some(0.) }];
+pub const RGAMUT_REQ: [OpParameter; 2] = [OpParameter::Flag { key: "inv" }, OpParameter::Real { key: "by", default: None }];
+/// what an accepting outcome-constructor's operator adds to the first element (plus `by`)
+const RBASE: f64 = 7000.;
+
+fn r_apply(op: &Op, operands: &mut dyn CoordinateSet, fwd: bool) -> usize {
+    let s = RBASE + op.params.real("by").unwrap_or(0.);
+    let n = operands.len();
+    for i in 0..n {
+        let mut c = operands.get_coord(i);
+        if fwd {
+            c[0] += s;
+        } else {
+            c[0] -= s;
+        }
+        operands.set_coord(i, &c);
+    }
+    n
+}
+fn rf(op: &Op, _ctx: &dyn Context, o: &mut dyn CoordinateSet) -> usize {
+    r_apply(op, o, true)
+}
+fn rg(op: &Op, _ctx: &dyn Context, o: &mut dyn CoordinateSet) -> usize {
+    r_apply(op, o, false)
+}
+
+/// M = 0: refuses always with variant V; 1: refuses with variant V unless the step text gives `by`;
+/// 2: `by` is a required parameter (the refusal comes from the library's own parameter parser:
+/// MissingParam / BadParam); 3: accepts (`by` optional; a malformed value is still a BadParam)
+fn rc<const V: u8, const M: u8>(p: &RawParameters, ctx: &dyn Context) -> Result<Op, Error> {
+    let def = p.definition.clone();
+    let name = def.operator_name();
+    let has_by = def.split_into_parameters().contains_key("by");
+    let r = match M {
+        0 => Err(make_error(V, &name, &def)),
+        1 if !has_by => Err(make_error(V, &name, &def)),
+        2 => Op::plain(p, InnerOp(rf), Some(InnerOp(rg)), &RGAMUT_REQ, ctx),
+        _ => Op::plain(p, InnerOp(rf), Some(InnerOp(rg)), &RGAMUT_OPT, ctx),
+    };
+    let logged = match &r {
+        Ok(_) => Ok(()),
+        Err(e) => Err(format!("{e:?}")),
+    };
+    UCTOR_LOG.with(|l| l.borrow_mut().push((def, logged)));
+    r
+}
+
+fn outcome_ctor(v: u8, m: u8) -> OpConstructor {
+    macro_rules! arms {
+        ($($v:literal)*) => {
+            match (v % 16, m % 4) {
+                (_, 2) => OpConstructor(rc::<0, 2>),
+                (_, 3) => OpConstructor(rc::<0, 3>),
+                $(($v, 0) => OpConstructor(rc::<$v, 0>), ($v, _) => OpConstructor(rc::<$v, 1>),)*
+                _ => unreachable!(),
+            }
+        };
+    }
+    arms!(0 1 2 3 4 5 6 7 8 9 10 11 12 13 14 15)
+}
+
+/// Refusing constructors for the random histories (constructor ids 6..12 there): K = 0..=3 refuse
+/// always (MissingParam, BadParam, General, NotFound(own name)); K = 4, 5 refuse (MissingParam,
+/// Syntax) unless the step text itself gives `d`, and then behave as the accepting constructors 4, 5.
+const HREFUSE: [&str; 6] = ["always MissingParam", "always BadParam", "always General", "always NotFound(own name)", "MissingParam unless d given, then U4", "Syntax unless d given, then U5"];
+fn hc<const K: u8>(p: &RawParameters, ctx: &dyn Context) -> Result<Op, Error> {
+    let def = &p.definition;
+    let has_d = def.split_into_parameters().contains_key("d");
+    match K {
+        0 => Err(Error::MissingParam("d".to_string())),
+        1 => Err(Error::BadParam("d".to_string(), "refused by the user constructor".to_string())),
+        2 => Err(Error::General("refused by the user constructor")),
+        3 => Err(Error::NotFound(def.operator_name(), ": refused by the user constructor".to_string())),
+        4 if has_d => uc4(p, ctx),
+        4 => Err(Error::MissingParam("d".to_string())),
+        _ if has_d => uc5(p, ctx),
+        _ => Err(Error::Syntax(format!("refused by the user constructor: {def}"))),
+    }
+}
+
+/// constructor ids of the histories: 0..6 accept (U0..U5), 6..12 refuse (see `hc`)
+fn hctor(c: u8) -> OpConstructor {
+    match c % 12 {
+        6 => OpConstructor(hc::<0>),
+        7 => OpConstructor(hc::<1>),
+        8 => OpConstructor(hc::<2>),
+        9 => OpConstructor(hc::<3>),
+        10 => OpConstructor(hc::<4>),
+        11 => OpConstructor(hc::<5>),
+        j => ctor(j),
     }
 }
 
@@ -589,6 +734,9 @@ fn setup_world() {
 
 fn teardown_world() {
     let _ = std::env::set_current_dir("/");
+    if let Some(l) = LATE_ROOT.get() {
+        let _ = std::fs::remove_dir_all(l);
+    }
     let _ = std::fs::remove_dir_all(&world().root);
 }
 
@@ -602,6 +750,8 @@ enum Prim {
     Helm(i64),
     Noop,
     User { c: u8, d: i64 },
+    /// the operator of an accepting outcome-constructor (`rc`): RBASE + by on the first element
+    By(i64),
     Fixed(u8),
     Grid(String), // name in the reference context
     NoGrid,       // gridshift whose only grid is an absent @optional one
@@ -742,6 +892,17 @@ fn eval(node: &Node, fwd: bool, data: &mut Vec<Coor4D>, unspec: &mut bool) -> us
                 Prim::Grid(name) => fresh_grid_apply(name, f, data),
                 // whatever the library documents for "no grid serves the point" (pristine reference context)
                 Prim::NoGrid => ref_apply("gridshift grids=@c18-never-there.geoid", f, data),
+                Prim::By(by) => {
+                    let s = RBASE + *by as f64;
+                    for p in data.iter_mut() {
+                        if f {
+                            p[0] += s;
+                        } else {
+                            p[0] -= s;
+                        }
+                    }
+                    data.len()
+                }
                 Prim::User { c, d } => {
                     let j = *c as usize % 6;
                     if !f && !UC[j].2 {
@@ -896,8 +1057,19 @@ impl<'a> Resolver<'a> {
                 if !colon {
                     // user operator?
                     if let Some(c) = self.reg.ops.get(name) {
+                        // a refusing user constructor: the definition gets the user's error - resolution
+                        // stops at the user-registered operator, whatever a built-in of that name would do
+                        let mut c = *c % 12;
+                        if c >= 6 {
+                            let k = c - 6;
+                            let has_d = !matches!(arg, Arg::None); // `d` in the step text itself
+                            if k < 4 || !has_d {
+                                return Err(Stop::Err(format!("the user constructor registered as '{name}' refuses ({})", HREFUSE[k as usize])));
+                            }
+                            c = k; // accepts: behaves as U4 / U5
+                        }
                         let d = Self::value(arg, env)?;
-                        let node = Node::Leaf { prim: Prim::User { c: *c, d }, inverted: *inv };
+                        let node = Node::Leaf { prim: Prim::User { c, d }, inverted: *inv };
                         if *inv && !node.invertible() {
                             return Err(Stop::Err(format!("'{name} inv' on a non-invertible user operator")));
                         }
@@ -1388,7 +1560,7 @@ impl Hist {
         format!(
             "context #{ci} ({}), user operators {{{}}}, run-time macros {{{}}}",
             if r.plain { "Plain" } else { "Minimal" },
-            r.ops.iter().map(|(k, c)| format!("{k} -> U{c}(+{} on element {}{})", UC[*c as usize % 6].0, UC[*c as usize % 6].1, if UC[*c as usize % 6].2 { "" } else { ", not invertible" })).collect::<Vec<_>>().join(", "),
+            r.ops.iter().map(|(k, c)| if *c % 12 >= 6 { format!("{k} -> REFUSING({})", HREFUSE[(*c % 12 - 6) as usize]) } else { format!("{k} -> U{c}(+{} on element {}{})", UC[*c as usize % 6].0, UC[*c as usize % 6].1, if UC[*c as usize % 6].2 { "" } else { ", not invertible" }) }).collect::<Vec<_>>().join(", "),
             macros.join(", ")
         )
     }
@@ -1400,8 +1572,14 @@ impl Hist {
             Step::Call { name, .. } => {
                 let r = &self.ctxs[ci].reg;
                 if !name.contains(':') {
-                    if r.ops.contains_key(name) {
-                        if MODELLED_BUILTINS.contains(&name.as_str()) { "builtin-shadowed-by-user-op".into() } else { "user-op".into() }
+                    if let Some(c) = r.ops.get(name) {
+                        let refusing = *c % 12 >= 6;
+                        match (MODELLED_BUILTINS.contains(&name.as_str()), refusing) {
+                            (true, false) => "builtin-shadowed-by-user-op".into(),
+                            (true, true) => "builtin-shadowed-by-refusing-user-op".into(),
+                            (false, false) => "user-op".into(),
+                            (false, true) => "refusing-user-op".into(),
+                        }
                     } else if MODELLED_BUILTINS.contains(&name.as_str()) {
                         "builtin".into()
                     } else {
@@ -1644,8 +1822,8 @@ impl Hist {
 
     fn reg_op(&mut self, ci: usize, name: &str, c: u8) {
         self.note_registration(ci, name);
-        self.ctxs[ci].any.register_op(name, ctor(c));
-        self.ctxs[ci].reg.ops.insert(name.to_string(), c % 6);
+        self.ctxs[ci].any.register_op(name, hctor(c));
+        self.ctxs[ci].reg.ops.insert(name.to_string(), c % 12);
     }
 
     fn reg_res(&mut self, ci: usize, name: &str, body: &Def, layout: u8) {
@@ -1739,7 +1917,7 @@ fn run_history(hist: &History, rec: &mut Rec) -> CaseResult {
             Cmd::RegOp { ctx, name, ctor } => {
                 let ci = *ctx as usize % 3;
                 w.reg_op(ci, name, *ctor);
-                let _ = write!(w.sig, "O{ci}{name}{};", ctor % 6);
+                let _ = write!(w.sig, "O{ci}{name}{};", ctor % 12);
                 "register_op"
             }
             Cmd::RegRes { ctx, name, body, layout } => {
@@ -1762,7 +1940,7 @@ fn run_history(hist: &History, rec: &mut Rec) -> CaseResult {
                     "register_resource"
                 } else {
                     w.reg_op(ci, &name, *ctor);
-                    let _ = write!(w.sig, "O{ci}{name}{};", ctor % 6);
+                    let _ = write!(w.sig, "O{ci}{name}{};", ctor % 12);
                     "register_op"
                 }
             }
@@ -2336,6 +2514,11 @@ fn arb_arg() -> impl Strategy<Value = Arg> {
     ]
 }
 
+/// constructor ids: accepting U0..U5 (weight 2), refusing kinds 6..12 (weight 1)
+fn arb_ctor() -> impl Strategy<Value = u8> {
+    prop_oneof![2 => 0u8..6, 1 => 6u8..12]
+}
+
 fn arb_gridsel() -> impl Strategy<Value = GridSel> {
     prop_oneof![
         6 => any::<u16>().prop_map(|i| GridSel::Cat(CAT_GRIDS[GRID_POOL[pick(i, GRID_POOL.len())]].to_string())),
@@ -2380,9 +2563,9 @@ fn arb_cmd(p: Profile) -> impl Strategy<Value = Cmd> {
     let g = p.grid_w;
     prop_oneof![
         p.w[0] => (0u8..3, prop::bool::weighted(0.6), prop::bool::weighted(0.8)).prop_map(|(slot, plain, with_new)| Cmd::NewCtx { slot, plain, with_new }),
-        p.w[1] => (0u8..3, any::<u16>(), 0u8..6).prop_map(|(ctx, i, ctor)| { let q = &pools().regop; Cmd::RegOp { ctx, name: q[pick(i, q.len())].clone(), ctor } }),
+        p.w[1] => (0u8..3, any::<u16>(), arb_ctor()).prop_map(|(ctx, i, ctor)| { let q = &pools().regop; Cmd::RegOp { ctx, name: q[pick(i, q.len())].clone(), ctor } }),
         p.w[2] => (0u8..3, any::<u16>(), arb_def(g, 3), 0u8..4).prop_map(|(ctx, i, body, layout)| { let q = &pools().regres; Cmd::RegRes { ctx, name: q[pick(i, q.len())].clone(), body, layout } }),
-        p.w[3] => (any::<u16>(), 0u8..6, arb_def(g, 2), 0u8..4).prop_map(|(h, ctor, body, layout)| Cmd::Redefine { h, ctor, body, layout }),
+        p.w[3] => (any::<u16>(), arb_ctor(), arb_def(g, 2), 0u8..4).prop_map(|(h, ctor, body, layout)| Cmd::Redefine { h, ctor, body, layout }),
         p.w[4] => (0u8..3, arb_def(g, 3), 0u8..4).prop_map(|(ctx, def, layout)| Cmd::Op { ctx, def, layout }),
         p.w[5] => (any::<u16>(), any::<bool>(), 0u8..12, -50i16..50).prop_map(|(h, fwd, n, seed)| Cmd::Apply { h, fwd, n, seed }),
         p.w[6] => (any::<u16>(), 0u8..3).prop_map(|(h, ctx)| Cmd::Foreign { h, ctx }),
@@ -2406,7 +2589,8 @@ fn file_item_cases() -> Vec<History> {
     for (name, _) in world().items.iter() {
         let c = |arg: Arg, inv: bool| one(call(name, arg, inv));
         // 0: fresh Plain::new; 1: Plain::default with inv; 2: in a pipeline; 3: Minimal knows no files;
-        // 4: run-time registration takes precedence, earlier instantiation keeps the file version, cache cleared
+        // 4: run-time registration takes precedence, earlier instantiation keeps the file version, cache cleared;
+        // 5: refusing user constructors under the built-in names used by the bodies
         v.push(History { cmds: vec![Cmd::Op { ctx: 1, def: c(Arg::None, false), layout: 0 }, Cmd::Op { ctx: 1, def: c(Arg::Lit(4), false), layout: 1 }] });
         v.push(History { cmds: vec![Cmd::NewCtx { slot: 2, plain: true, with_new: false }, Cmd::Op { ctx: 2, def: c(Arg::None, true), layout: 0 }] });
         v.push(History { cmds: vec![Cmd::Op { ctx: 1, def: pipe(vec![call("addone", Arg::None, false), call(name, Arg::Lit(-3), true), helm(9)]), layout: 2 }] });
@@ -2428,6 +2612,28 @@ fn file_item_cases() -> Vec<History> {
                 Cmd::NewCtx { slot: 1, plain: true, with_new: true },
                 Cmd::Foreign { h: 0, ctx: 1 },
                 Cmd::Foreign { h: 0, ctx: 0 },
+            ],
+        });
+        // 5: user constructors that REFUSE, registered under the built-in names the item bodies use: from
+        // then on the item gets the user's error (or the user's operator where the constructor accepts the
+        // text), earlier handles and the other context keep the built-ins; then accepting constructors again
+        v.push(History {
+            cmds: vec![
+                Cmd::Op { ctx: 1, def: c(Arg::Lit(2), false), layout: 0 },
+                Cmd::RegOp { ctx: 1, name: "addone".into(), ctor: 6 },
+                Cmd::RegOp { ctx: 1, name: "helmert".into(), ctor: 10 },
+                Cmd::Op { ctx: 1, def: c(Arg::Lit(2), false), layout: 0 },
+                Cmd::Op { ctx: 1, def: c(Arg::None, false), layout: 1 },
+                Cmd::Op { ctx: 1, def: pipe(vec![helm(4), call(name, Arg::None, true)]), layout: 0 },
+                Cmd::Op { ctx: 2, def: c(Arg::Lit(2), false), layout: 0 },
+                Cmd::RegOp { ctx: 1, name: "helmert".into(), ctor: 7 },
+                Cmd::RegOp { ctx: 1, name: "addone".into(), ctor: 11 },
+                Cmd::Op { ctx: 1, def: c(Arg::Lit(2), false), layout: 0 },
+                Cmd::Op { ctx: 1, def: one(call("addone", Arg::Lit(3), false)), layout: 0 },
+                Cmd::Op { ctx: 1, def: one(call("addone", Arg::None, false)), layout: 0 },
+                Cmd::RegOp { ctx: 1, name: "helmert".into(), ctor: 2 },
+                Cmd::RegOp { ctx: 1, name: "addone".into(), ctor: 0 },
+                Cmd::Op { ctx: 1, def: c(Arg::Lit(2), false), layout: 0 },
             ],
         });
     }
@@ -2694,6 +2900,176 @@ fn check_builtin(case: &BuiltinCase, rec: &mut Rec) -> CaseResult {
 }
 
 // =====================================================================================
+// 7b'. A user-registered operator decides: whatever its constructor returns is the result
+// =====================================================================================
+//
+// Documented order: pipeline -> user-registered operator -> macro -> built-in. Once a user operator
+// is registered under the name N, resolution of a definition naming N STOPS there: `op()` hands back
+// what the user constructor returns - a handle behaving as the user's operator, or the user's error -
+// and never gets as far as the built-in called N, whether that built-in would accept the text or not.
+
+#[derive(Clone, Debug, Serialize, Deserialize)]
+struct OutcomeCase {
+    name: String,
+    /// 0 accepts; 1 `by` required (library parser refuses: MissingParam / BadParam); 2..18 refuses always with
+    /// Error variant kind-2; 18..34 refuses with variant kind-18 unless the step text gives `by`
+    kind: u8,
+    /// parameter text: 0 the built-in's valid parameters; 1 none; 2 valid + by=7; 3 valid + by=abc; 4 valid + inv
+    text: u8,
+    /// 0 stand-alone; 1 step of a pipeline; 2 body of a macro; 3 step of a pipeline which is the body of a
+    /// macro invoked as a step of a pipeline
+    form: u8,
+    plain: bool,
+}
+const OUTCOME_KINDS: usize = 34;
+const OUTCOME_TEXTS: usize = 5;
+const OUTCOME_FORMS: usize = 4;
+
+fn outcome_kind(kind: u8) -> (u8, u8, String) {
+    match kind as usize % OUTCOME_KINDS {
+        0 => (0, 3, "accepts".to_string()),
+        1 => (0, 2, "requires-by".to_string()),
+        k if k < 18 => ((k - 2) as u8, 0, format!("always-{}", ERROR_VARIANTS[k - 2])),
+        k => ((k - 18) as u8, 1, format!("unless-by-{}", ERROR_VARIANTS[k - 18])),
+    }
+}
+
+fn check_outcome(case: &OutcomeCase, rec: &mut Rec) -> CaseResult {
+    let name = case.name.as_str();
+    let form = ["stand-alone", "pipeline-step", "macro-body", "pipeline-in-macro-in-pipeline"][case.form as usize % OUTCOME_FORMS];
+    let kind = if case.plain { "Plain" } else { "Minimal" };
+    let (v, m, klabel) = outcome_kind(case.kind);
+    let valid = BUILTIN_TABLE.iter().find(|t| t.0 == name).map(|t| t.1).unwrap_or("");
+    let (tail, by, inv): (String, i64, bool) = match case.text as usize % OUTCOME_TEXTS {
+        0 => (valid.to_string(), 0, false),
+        1 => (String::new(), 0, false),
+        2 => (format!("{valid} by=7"), 7, false),
+        3 => (format!("{valid} by=abc"), 0, false),
+        _ => (format!("{valid} inv"), 0, true),
+    };
+    let tlabel = ["builtin-parameters", "no-parameters", "builtin-parameters+by=7", "builtin-parameters+by=abc", "builtin-parameters+inv"][case.text as usize % OUTCOME_TEXTS];
+    let step = format!("{name} {}", tail.trim()).trim().to_string();
+    let (filler, filler_prim) = if name == "addone" { ("helmert x=1", Prim::Helm(1)) } else { ("addone", Prim::Add1) };
+    let fill = || Node::Leaf { prim: filler_prim.clone(), inverted: false };
+    let def = match case.form as usize % OUTCOME_FORMS {
+        0 => step.clone(),
+        1 => format!("{filler} | {step}"),
+        2 => "uo:mac".to_string(),
+        _ => format!("{filler} | uo:pipe"),
+    };
+    let make = || -> AnyCtx {
+        let mut c = AnyCtx::make(case.plain, true);
+        c.register_resource("uo:mac", &step);
+        c.register_resource("uo:pipe", &format!("{step} | {filler}"));
+        c
+    };
+    let wrap = |user: Node| -> Node {
+        match case.form as usize % OUTCOME_FORMS {
+            0 | 2 => user,
+            1 => Node::Seq { items: vec![fill(), user], inverted: false },
+            _ => Node::Seq { items: vec![fill(), Node::Seq { items: vec![user, fill()], inverted: false }], inverted: false },
+        }
+    };
+    let op_guarded = |ctx: &mut AnyCtx| -> Result<Result<OpHandle, Error>, Failure> {
+        guard(|| ctx.op(&def)).map_err(|p| Failure { key: format!("panic-op@{}", p.sig()), msg: format!("op({def:?}) panics: {} at {}:{}", p.msg, p.file, p.line) })
+    };
+    let pr = probes();
+
+    // what the BUILT-IN of that name makes of the very same definition (no user registration): class label only
+    let builtin_accepts = {
+        let mut c0 = make();
+        op_guarded(&mut c0)?.is_ok()
+    };
+    let blabel = if builtin_accepts { "builtin-would-accept" } else { "builtin-would-refuse" };
+
+    let mut ctx = make();
+    ctx.register_op(name, outcome_ctor(v, m));
+    let in_pipeline_by_name = case.form % 4 % 2 == 1 && PIPELINE_HANDLERS.contains(&name);
+    // every later definition naming N: the first one, and again (a refusal must not wear the registration off)
+    for round in 0..2 {
+        let _ = uctor_log_take();
+        let r = op_guarded(&mut ctx)?;
+        let log = uctor_log_take();
+        let Some((seen, returned)) = log.first().cloned() else {
+            vfail!(
+                format!("user-op-not-consulted/{form}"),
+                "{kind}: after register_op({name:?}, <{klabel}>) op({def:?}) ({form}, instantiation #{}) gives {} WITHOUT the user constructor having been called: the documented order (pipeline, user-registered operator, macro, built-in) was not followed",
+                round + 1, match &r { Ok(_) => "Ok".to_string(), Err(e) => format!("{e:?}") }
+            );
+        };
+        match (&returned, r) {
+            (Err(user_err), Ok(h)) => {
+                let lib = singletons(&ctx, h, true, &pr[..2])?;
+                vfail!(
+                    format!("user-op-refusal-fell-through/{form}"),
+                    "{kind}: '{name}' is registered by the user; for the step '{seen}' the user constructor returned {user_err}, yet op({def:?}) ({form}, instantiation #{}) SUCCEEDS (Fwd of {:?}, {:?} gives {}; params(0).name = {:?}): resolution went on past the user-registered operator ({blabel} the same text). Expected: the user's error",
+                    round + 1, pr[0], pr[1], show_outs(&lib), ctx.params(h, 0).map(|p| p.name).ok()
+                );
+            }
+            (Err(user_err), Err(e)) => {
+                let got = format!("{e:?}");
+                if &got != user_err {
+                    vfail!(
+                        format!("user-op-error-replaced/{form}"),
+                        "{kind}: '{name}' is registered by the user; for the step '{seen}' the user constructor returned {user_err}, but op({def:?}) ({form}) fails with {got} ({blabel} the same text). Expected: exactly the user's error"
+                    );
+                }
+                rec.class(&format!("refused:{}/{blabel}", returned.as_ref().err().map(|e| e.split(['(', ' ', '{']).next().unwrap_or("?").to_string()).unwrap_or_default()));
+            }
+            (Ok(()), Err(e)) => vfail!(
+                format!("user-op-accepted-but-op-failed/{form}"),
+                "{kind}: '{name}' is registered by the user, its constructor ACCEPTED the step '{seen}', but op({def:?}) ({form}) fails with {e:?}"
+            ),
+            (Ok(()), Ok(h)) => {
+                if in_pipeline_by_name {
+                    // push/pop/stack steps are executed by the pipeline operator itself, by name: what an
+                    // accepting user operator of that name does inside a pipeline is not documented
+                    rec.count("excluded_unspecified_pipeline_handler_shadowing", 1);
+                } else {
+                    let node = wrap(Node::Leaf { prim: Prim::By(by), inverted: inv });
+                    let lib = singletons(&ctx, h, true, &pr)?;
+                    let (mf, _) = model_singletons(&node, true, &pr);
+                    let libi = singletons(&ctx, h, false, &pr)?;
+                    let (mi, _) = model_singletons(&node, false, &pr);
+                    if lib != mf || libi != mi {
+                        vfail!(
+                            format!("user-op-does-not-shadow-builtin/{form}"),
+                            "{kind}: '{name}' is registered by the user (adds {RBASE} + by to the first element), its constructor accepted the step '{seen}', but op({def:?}) ({form}) gives Fwd {} / Inv {}; with the user's operator it would be Fwd {} / Inv {} ({})",
+                            show_outs(&lib), show_outs(&libi), show_outs(&mf), show_outs(&mi), node.describe()
+                        );
+                    }
+                }
+                rec.class(&format!("accepted/{blabel}"));
+            }
+        }
+    }
+    // ... and the NEXT registration under that name decides from then on: accepting after refusing and v.v.
+    let accepted_first = m >= 2;
+    let (v2, m2) = if accepted_first { ((name.len() + case.text as usize) as u8 % 16, 0) } else { (0, 3) };
+    ctx.register_op(name, outcome_ctor(v2, m2));
+    let _ = uctor_log_take();
+    let r = op_guarded(&mut ctx)?;
+    let log = uctor_log_take();
+    match (log.first(), &r) {
+        (None, _) => vfail!(format!("user-op-not-consulted/{form}"), "{kind}: after a SECOND register_op({name:?}, ..) op({def:?}) ({form}) does not call the user constructor"),
+        (Some((_, Err(ue))), Ok(_)) => vfail!(format!("user-op-refusal-fell-through/{form}"), "{kind}: register_op({name:?}, <{klabel}>), then register_op({name:?}, <always-{}>): op({def:?}) ({form}) succeeds although the constructor registered LAST returned {ue}", ERROR_VARIANTS[v2 as usize]),
+        (Some((_, Ok(()))), Err(e)) => vfail!(format!("user-op-accepted-but-op-failed/{form}"), "{kind}: register_op({name:?}, <{klabel}>), then register_op({name:?}, <accepts>): op({def:?}) ({form}) fails with {e:?} although the constructor registered LAST accepted"),
+        (Some((_, Err(ue))), Err(e)) => {
+            if &format!("{e:?}") != ue {
+                vfail!(format!("user-op-error-replaced/{form}"), "{kind}: re-registered '{name}': the user constructor returned {ue}, op({def:?}) ({form}) fails with {e:?}");
+            }
+        }
+        (Some((_, Ok(()))), Ok(_)) => {}
+    }
+    rec.class(&format!("ctor:{klabel}"));
+    rec.class(&format!("text:{tlabel}"));
+    rec.class(&format!("form:{form}"));
+    rec.class(&format!("name:{name}"));
+    rec.nontrivial(&(name.to_string(), case.kind, case.text, case.form, case.plain));
+    Ok(())
+}
+
+// =====================================================================================
 // 7c. Unknown names derived from known file items must stay unknown
 // =====================================================================================
 
@@ -2772,6 +3148,567 @@ fn check_derived(case: &DerivedCase, rec: &mut Rec) -> CaseResult {
 }
 
 // =====================================================================================
+// 7d. WHEN the directory tree and the files come into existence
+// =====================================================================================
+//
+// Reference: a look-up consults the file system as it is AT THE TIME OF THE LOOK-UP ("By placing the
+// text block in the file ./geodesy/resources/my_register.md, Geodesy, using the Plain Context, will know
+// it as the macro my_register:pointless", Rumination 009) - not as it was when the context was created
+// or when the name was last asked for. Registers and stand-alone resource files are read at every
+// look-up (confirmed on the unchanged tree); grids are legitimately cached BY NAME once loaded (doc
+// comment of Plain::clear_grids), so a grid name never changes its content here and a removed grid may
+// or may not be found.
+//
+// Every case gets a directory tree of its own (cwd and XDG_DATA_HOME are process-wide, so the cases of
+// these sections run one at a time, under a lock, and restore the world of the other sections).
+
+#[derive(Clone, Debug, Serialize, Deserialize)]
+enum LCmd {
+    NewCtx { slot: u8, with_new: bool },
+    /// depth 0: <loc>/geodesy; 1: <loc>/geodesy/resources; 2: <loc>/geodesy/geoid - created EMPTY
+    MkDir { xdg: bool, depth: u8 },
+    /// (re)write the register of that location with the given versions of its items a and b
+    PutReg { xdg: bool, a: Option<u8>, b: Option<u8>, style: u8 },
+    PutRes { xdg: bool, b: bool, v: u8 },
+    PutGrid { xdg: bool, v: u8 },
+    DelReg { xdg: bool },
+    DelRes { xdg: bool, b: bool },
+    RmTree { xdg: bool },
+    /// run-time registration under the name of target 0..8
+    RegRt { slot: u8, target: u8, v: u8 },
+    /// targets 0..8: (location, register | stand-alone, item a | b); 8, 9: the grid of the location
+    /// form % 4: 0 stand-alone; 1 step of a pipeline; 2 through a run-time macro naming it; 3 inverted;
+    /// form & 4: go for the next target (cyclically) whose file exists right now, if any
+    Look { slot: u8, target: u8, form: u8 },
+    /// look up (form % 4) the target found last - after rewriting its file with another version, if `rewrite`
+    Again { slot: u8, form: u8, rewrite: Option<u8> },
+}
+
+#[derive(Clone, Debug, Serialize, Deserialize)]
+struct LateCase {
+    cmds: Vec<LCmd>,
+}
+
+static LATE_LOCK: std::sync::Mutex<()> = std::sync::Mutex::new(());
+static LATE_ROOT: OnceLock<PathBuf> = OnceLock::new();
+/// Where the per-case trees live: a memory file system if there is one (thousands of tiny directory
+/// operations; the disk behind the temp directory may be busy), else under the world's root
+fn late_root() -> &'static PathBuf {
+    LATE_ROOT.get_or_init(|| {
+        let pid = std::process::id();
+        let shm = PathBuf::from("/dev/shm");
+        if let Ok(rd) = std::fs::read_dir(&shm) {
+            for e in rd.flatten() {
+                let n = e.file_name().to_string_lossy().to_string();
+                if let Some(p) = n.strip_prefix("verif-c18-late-").and_then(|p| p.parse::<u32>().ok()) {
+                    if p != pid && !std::path::Path::new(&format!("/proc/{p}")).exists() {
+                        let _ = std::fs::remove_dir_all(e.path());
+                    }
+                }
+            }
+        }
+        let cand = shm.join(format!("verif-c18-late-{pid}"));
+        if std::fs::create_dir_all(&cand).is_ok() {
+            return cand;
+        }
+        world().root.join("late")
+    })
+}
+static LATE_COUNTER: AtomicU64 = AtomicU64::new(0);
+
+struct LateEnv {
+    base: PathBuf,
+    id: u64,
+}
+impl LateEnv {
+    fn enter() -> LateEnv {
+        let id = LATE_COUNTER.fetch_add(1, Ordering::Relaxed);
+        let base = late_root().join(format!("c{id}"));
+        let _ = std::fs::remove_dir_all(&base);
+        std::fs::create_dir_all(base.join("w")).expect("late tree");
+        std::fs::create_dir_all(base.join("u")).expect("late tree");
+        std::env::set_var("XDG_DATA_HOME", base.join("u"));
+        std::env::set_current_dir(base.join("w")).expect("chdir into the late tree");
+        LateEnv { base, id }
+    }
+    fn geodesy(&self, xdg: bool) -> PathBuf {
+        self.base.join(if xdg { "u" } else { "w" }).join("geodesy")
+    }
+}
+impl Drop for LateEnv {
+    fn drop(&mut self) {
+        std::env::set_var("XDG_DATA_HOME", world().root.join("u"));
+        let _ = std::env::set_current_dir(world().root.join("w"));
+        let _ = std::fs::remove_dir_all(&self.base);
+    }
+}
+
+const LATE_PREFIX: [&str; 4] = ["lw", "sw", "lu", "su"]; // register / stand-alone in cwd, register / stand-alone in the user directory
+fn late_name(t: usize) -> String {
+    format!("{}:{}", LATE_PREFIX[t / 2], ["a", "b"][t % 2])
+}
+fn late_const(t: usize, v: u8) -> i64 {
+    1000 * (t as i64 + 1) + (v % 100) as i64
+}
+fn late_label(t: usize) -> String {
+    if t >= 8 {
+        return format!("grid/{}", if t == 9 { "user-dir" } else { "cwd" });
+    }
+    format!("{}/{}", if (t % 4) / 2 == 0 { "register" } else { "stand-alone" }, if t / 4 == 1 { "user-dir" } else { "cwd" })
+}
+
+#[derive(Clone, Copy, Default, PartialEq, Debug)]
+struct DirState {
+    geodesy: bool,
+    resources: bool,
+    geoid: bool,
+}
+
+#[derive(Clone, Default)]
+struct LateFs {
+    dirs: [DirState; 2],
+    regs: [Option<[Option<u8>; 2]>; 2],
+    res: [[Option<u8>; 2]; 2],
+    /// (version, exists now); None: never written
+    grid: [Option<(u8, bool)>; 2],
+    /// how often the file providing the target has been (re)written
+    writes: [u32; 10],
+}
+impl LateFs {
+    fn version(&self, t: usize) -> Option<u8> {
+        let (loc, kind, sfx) = (t / 4, (t % 4) / 2, t % 2);
+        if kind == 0 {
+            self.regs[loc].and_then(|r| r[sfx])
+        } else {
+            self.res[loc][sfx]
+        }
+    }
+}
+
+struct LateCtx {
+    any: AnyCtx,
+    rt: BTreeMap<String, i64>,
+    born: LateFs,
+    /// per target: (number of vain look-ups, `writes` at the last successful look-up)
+    asked: [(u32, Option<u32>); 10],
+}
+
+fn run_late(case: &LateCase, rec: &mut Rec) -> CaseResult {
+    let _lock = LATE_LOCK.lock().unwrap_or_else(|e| e.into_inner());
+    run_late_locked(case, rec)
+}
+
+fn run_late_locked(case: &LateCase, rec: &mut Rec) -> CaseResult {
+    let env = LateEnv::enter();
+    let pr = probes();
+    let mut fs = LateFs::default();
+    let mut ctxs: [Option<LateCtx>; 2] = [None, None];
+    // (slot, handle, text, fwd, inv)
+    let mut live: Vec<(usize, OpHandle, String, Vec<Out>, Vec<Out>)> = vec![];
+    let mut sig = String::new();
+    let mut nt = false;
+    let grid_name = |xdg: bool| format!("c18l{}{}.geoid", env.id, if xdg { "u" } else { "w" });
+    let io = |r: std::io::Result<()>, what: &str| r.unwrap_or_else(|e| panic!("late tree: {what}: {e}"));
+    let mut queue: std::collections::VecDeque<LCmd> = case.cmds.iter().cloned().collect();
+    let mut last_found: Option<usize> = None;
+    let mut at = 0usize;
+    while let Some(cmd) = queue.pop_front() {
+        at += 1;
+        // a context that is used before the history created it comes into being at that moment
+        if let LCmd::RegRt { slot, .. } | LCmd::Look { slot, .. } | LCmd::Again { slot, .. } = &cmd {
+            let s = *slot as usize % 2;
+            if ctxs[s].is_none() {
+                ctxs[s] = Some(LateCtx { any: AnyCtx::make(true, true), rt: BTreeMap::new(), born: fs.clone(), asked: [(0, None); 10] });
+                let _ = write!(sig, "N{s};");
+                rec.class("cmd:new-context");
+            }
+        }
+        let cmd = &cmd;
+        let label: &'static str = match cmd {
+            LCmd::Again { slot, form, rewrite } => {
+                // the target found last (by any context): optionally rewrite its file with another version
+                // (a removed grid is restored: grid names keep their content), then look it up (again)
+                let Some(t) = last_found else {
+                    rec.count("skipped_nothing_found_yet", 1);
+                    continue;
+                };
+                let xdg = if t >= 8 { t == 9 } else { t / 4 == 1 };
+                queue.push_front(LCmd::Look { slot: *slot, target: t as u8, form: form % 4 });
+                if let Some(v) = rewrite {
+                    let put = if t >= 8 {
+                        LCmd::PutGrid { xdg, v: *v }
+                    } else if (t % 4) / 2 == 0 {
+                        let cur = fs.regs[xdg as usize].unwrap_or([None, None]);
+                        if t % 2 == 0 { LCmd::PutReg { xdg, a: Some(*v), b: cur[1], style: *v } } else { LCmd::PutReg { xdg, a: cur[0], b: Some(*v), style: *v } }
+                    } else {
+                        LCmd::PutRes { xdg, b: t % 2 == 1, v: *v }
+                    };
+                    queue.push_front(put);
+                }
+                continue;
+            }
+            LCmd::NewCtx { slot, with_new } => {
+                let s = *slot as usize % 2;
+                live.retain(|l| l.0 != s);
+                ctxs[s] = Some(LateCtx { any: AnyCtx::make(true, *with_new), rt: BTreeMap::new(), born: fs.clone(), asked: [(0, None); 10] });
+                let _ = write!(sig, "N{s};");
+                "new-context"
+            }
+            LCmd::MkDir { xdg, depth } => {
+                let loc = *xdg as usize;
+                let g = env.geodesy(*xdg);
+                let d = &mut fs.dirs[loc];
+                match depth % 3 {
+                    0 => {
+                        io(std::fs::create_dir_all(&g), "mkdir geodesy");
+                        d.geodesy = true;
+                    }
+                    1 => {
+                        io(std::fs::create_dir_all(g.join("resources")), "mkdir resources");
+                        (d.geodesy, d.resources) = (true, true);
+                    }
+                    _ => {
+                        io(std::fs::create_dir_all(g.join("geoid")), "mkdir geoid");
+                        (d.geodesy, d.geoid) = (true, true);
+                    }
+                }
+                let _ = write!(sig, "M{loc}{};", depth % 3);
+                "mkdir-empty"
+            }
+            LCmd::PutReg { xdg, a, b, style } => {
+                let loc = *xdg as usize;
+                let dir = env.geodesy(*xdg).join("resources");
+                io(std::fs::create_dir_all(&dir), "mkdir resources");
+                (fs.dirs[loc].geodesy, fs.dirs[loc].resources) = (true, true);
+                let t0 = loc * 4;
+                let defs: Vec<(usize, Def)> = [a, b].iter().enumerate().filter_map(|(k, v)| v.map(|v| (k, one(helm_k(late_const(t0 + k, v)))))).collect();
+                let items: Vec<(&str, &Def, u8)> = defs.iter().map(|(k, d)| (["a", "b"][*k], d, (*k as u8 + style) % 2)).collect();
+                let e = [Eol::Lf, Eol::CrLf, Eol::Cr][*style as usize % 3];
+                let ending = [Ending::TermNl, Ending::TermNoNl, Ending::OpenNl, Ending::OpenNoNl][(*style as usize / 3) % 4];
+                io(std::fs::write(dir.join(format!("{}.md", LATE_PREFIX[loc * 2])), register_text("Late", &items, e, ending)), "write register");
+                fs.regs[loc] = Some([a.map(|v| v % 100), b.map(|v| v % 100)]);
+                fs.writes[t0] += 1;
+                fs.writes[t0 + 1] += 1;
+                let _ = write!(sig, "G{loc}{a:?}{b:?};");
+                "write-register"
+            }
+            LCmd::PutRes { xdg, b, v } => {
+                let loc = *xdg as usize;
+                let dir = env.geodesy(*xdg).join("resources");
+                io(std::fs::create_dir_all(&dir), "mkdir resources");
+                (fs.dirs[loc].geodesy, fs.dirs[loc].resources) = (true, true);
+                let t = loc * 4 + 2 + *b as usize;
+                let text = format!("helmert x={}{}", late_const(t, *v), if v % 2 == 0 { "\n" } else { "" });
+                io(std::fs::write(dir.join(format!("{}_{}.resource", LATE_PREFIX[loc * 2 + 1], ["a", "b"][*b as usize])), text), "write resource");
+                fs.res[loc][*b as usize] = Some(v % 100);
+                fs.writes[t] += 1;
+                let _ = write!(sig, "S{loc}{}{v};", *b as u8);
+                "write-resource-file"
+            }
+            LCmd::PutGrid { xdg, v } => {
+                let loc = *xdg as usize;
+                let dir = env.geodesy(*xdg).join("geoid");
+                io(std::fs::create_dir_all(&dir), "mkdir geoid");
+                (fs.dirs[loc].geodesy, fs.dirs[loc].geoid) = (true, true);
+                // the content behind a grid name never changes: a later PutGrid restores the same file
+                let v = fs.grid[loc].map(|g| g.0).unwrap_or(*v % 8);
+                if !matches!(fs.grid[loc], Some((_, true))) {
+                    io(std::fs::write(dir.join(grid_name(*xdg)), priv_grid_text(v)), "write grid");
+                    fs.grid[loc] = Some((v, true));
+                    fs.writes[8 + loc] += 1;
+                }
+                let _ = write!(sig, "P{loc}{v};");
+                "write-grid-file"
+            }
+            LCmd::DelReg { xdg } => {
+                let loc = *xdg as usize;
+                let _ = std::fs::remove_file(env.geodesy(*xdg).join("resources").join(format!("{}.md", LATE_PREFIX[loc * 2])));
+                fs.regs[loc] = None;
+                let _ = write!(sig, "D{loc};");
+                "remove-register"
+            }
+            LCmd::DelRes { xdg, b } => {
+                let loc = *xdg as usize;
+                let _ = std::fs::remove_file(env.geodesy(*xdg).join("resources").join(format!("{}_{}.resource", LATE_PREFIX[loc * 2 + 1], ["a", "b"][*b as usize])));
+                fs.res[loc][*b as usize] = None;
+                let _ = write!(sig, "E{loc}{};", *b as u8);
+                "remove-resource-file"
+            }
+            LCmd::RmTree { xdg } => {
+                let loc = *xdg as usize;
+                let _ = std::fs::remove_dir_all(env.geodesy(*xdg));
+                fs.dirs[loc] = DirState::default();
+                fs.regs[loc] = None;
+                fs.res[loc] = [None, None];
+                if let Some(g) = fs.grid[loc].as_mut() {
+                    g.1 = false;
+                }
+                let _ = write!(sig, "X{loc};");
+                "remove-tree"
+            }
+            LCmd::RegRt { slot, target, v } => {
+                let (s, t) = (*slot as usize % 2, *target as usize % 8);
+                let c = ctxs[s].as_mut().expect("context exists");
+                let k = 50_000 + late_const(t, *v);
+                c.any.register_resource(&late_name(t), &format!("helmert x={k}"));
+                c.rt.insert(late_name(t), k);
+                let _ = write!(sig, "R{s}{t};");
+                "register_resource"
+            }
+            LCmd::Look { slot, target, form } => {
+                let (s, mut t, redirect, form) = (*slot as usize % 2, *target as usize % 10, *form & 4 != 0, *form % 4);
+                let c = ctxs[s].as_mut().expect("context exists");
+                if redirect {
+                    // prefer a target whose file exists right now (the next one, cyclically), if there is any
+                    let provided = |c: usize| if c >= 8 { matches!(fs.grid[c - 8], Some((_, true))) } else { fs.version(c).is_some() };
+                    if let Some(c) = (0..10).map(|k| (t + k) % 10).find(|c| provided(*c)) {
+                        t = c;
+                    }
+                }
+                let loc = if t >= 8 { t - 8 } else { t / 4 };
+                let name = if t >= 8 { format!("gridshift grids={}", grid_name(loc == 1)) } else { late_name(t) };
+                // expectation from the file system AS IT IS NOW
+                let (leaf, either): (Option<Prim>, bool) = if t >= 8 {
+                    match fs.grid[loc] {
+                        Some((v, true)) => (Some(Prim::Grid(format!("pv{v}.geoid"))), false),
+                        Some((v, false)) => (Some(Prim::Grid(format!("pv{v}.geoid"))), true), // removed: cached or not
+                        None => (None, false),
+                    }
+                } else if let Some(k) = c.rt.get(&name) {
+                    (Some(Prim::Helm(*k)), false)
+                } else {
+                    (fs.version(t).map(|v| Prim::Helm(late_const(t, v))), false)
+                };
+                let from_file = t >= 8 || !c.rt.contains_key(&name);
+                let def = match form {
+                    0 => name.clone(),
+                    1 => format!("addone | {name}"),
+                    2 => {
+                        c.any.register_resource(&format!("rt:via{t}"), &name);
+                        format!("rt:via{t}")
+                    }
+                    _ => format!("{name} inv"),
+                };
+                let r = guard(|| c.any.op(&def)).map_err(|p| Failure { key: format!("panic-op@{}", p.sig()), msg: format!("op({def:?}) panics: {} at {}:{}", p.msg, p.file, p.line) })?;
+                let what = late_label(t);
+                // how the moment of this look-up relates to the creation of the context and to earlier look-ups
+                let born = &c.born;
+                let timing = if !from_file {
+                    "run-time-registration-wins"
+                } else if !born.dirs[loc].geodesy {
+                    "context-created-before-the-geodesy-directory"
+                } else if !(if t >= 8 { born.dirs[loc].geoid } else { born.dirs[loc].resources }) {
+                    "context-created-before-the-subdirectory"
+                } else if born.writes[t] == 0 {
+                    "context-created-before-the-file(directory-empty)"
+                } else if born.writes[t] != fs.writes[t] {
+                    "file-rewritten-after-context-creation"
+                } else {
+                    "context-created-after-the-file"
+                };
+                let history = format!(
+                    "context #{s} was created when {} had: geodesy/ {}, geodesy/resources/ {}, geodesy/geoid/ {}, the file written {} time(s); now: geodesy/ {}, resources/ {}, geoid/ {}, file written {} time(s); earlier look-ups of this name in this context: {} in vain, last success at file version #{:?}",
+                    if loc == 1 { "$XDG_DATA_HOME" } else { "the working directory" },
+                    born.dirs[loc].geodesy, born.dirs[loc].resources, born.dirs[loc].geoid, born.writes[t],
+                    fs.dirs[loc].geodesy, fs.dirs[loc].resources, fs.dirs[loc].geoid, fs.writes[t], c.asked[t].0, c.asked[t].1
+                );
+                match (&leaf, r) {
+                    (None, Ok(h)) => {
+                        let lib = singletons(&c.any, h, true, &pr[..2])?;
+                        vfail!(
+                            format!("absent-file-item-found/{what}"),
+                            "Plain: op({def:?}) succeeds (Fwd of the first probe tuples: {}) although nothing provides that name at the time of the look-up (file removed / never written; history step {at}); {history}",
+                            show_outs(&lib)
+                        );
+                    }
+                    (None, Err(_)) => {
+                        c.asked[t].0 += 1;
+                        rec.class(&format!("absent-as-expected:{what}"));
+                    }
+                    (Some(prim), Err(e)) => {
+                        if either {
+                            rec.class("removed-grid:not-found");
+                        } else {
+                            vfail!(
+                                format!("file-not-found-at-lookup-time/{what}/{timing}"),
+                                "Plain: op({def:?}) fails with {e:?} although the {what} file providing it ({prim:?}) EXISTS at the time of the look-up (history step {at}); {history}. A look-up consults the file system as it is when the name is asked for, whenever the context was created"
+                            );
+                        }
+                    }
+                    (Some(prim), Ok(h)) => {
+                        let user = Node::Leaf { prim: prim.clone(), inverted: form == 3 };
+                        let node = if form == 1 { Node::Seq { items: vec![Node::Leaf { prim: Prim::Add1, inverted: false }, user], inverted: false } } else { user };
+                        let lib = singletons(&c.any, h, true, &pr)?;
+                        let libi = singletons(&c.any, h, false, &pr)?;
+                        let (mf, _) = model_singletons(&node, true, &pr);
+                        let (mi, _) = model_singletons(&node, false, &pr);
+                        if lib != mf || libi != mi {
+                            vfail!(
+                                format!("file-lookup-mismatch/{what}/{timing}"),
+                                "Plain: op({def:?}) (history step {at}) gives Fwd {} / Inv {}, but what the {what} file holds at the time of the look-up is {} -> Fwd {} / Inv {}; {history}",
+                                show_outs(&lib), show_outs(&libi), node.describe(), show_outs(&mf), show_outs(&mi)
+                            );
+                        }
+                        if from_file {
+                            rec.class(&format!("found:{what}/{timing}"));
+                            if c.asked[t].0 > 0 && c.asked[t].1.is_none() {
+                                rec.class(&format!("found-after-vain-lookup:{what}"));
+                            }
+                            if c.asked[t].1.is_some_and(|w| w != fs.writes[t]) {
+                                rec.class(&format!("{}:{what}", if t >= 8 { "found-again-after-removal-and-restoration" } else { "found-new-content-after-replacement" }));
+                            }
+                            if timing != "context-created-after-the-file" {
+                                nt = true;
+                            }
+                            c.asked[t].1 = Some(fs.writes[t]);
+                            last_found = Some(t);
+                        } else {
+                            rec.class("found:run-time-registration-over-file");
+                        }
+                        if live.len() < 8 {
+                            live.push((s, h, def.clone(), lib, libi));
+                        }
+                    }
+                }
+                let _ = write!(sig, "L{s}{t}{form};");
+                "look-up"
+            }
+        };
+        rec.class(&format!("cmd:{label}"));
+        // every operator instantiated earlier is unchanged, whatever happened to its file or directory
+        for (s, h, text, fwd, inv) in &live {
+            let c = ctxs[*s].as_ref().expect("live handle of a live context");
+            if &singletons(&c.any, *h, true, &pr)? != fwd || &singletons(&c.any, *h, false, &pr)? != inv {
+                vfail!(format!("handle-changed-after-{label}"), "Plain: operator '{text}' (context #{s}) changed after history step {at} ({label}): Fwd was {}", show_outs(fwd));
+            }
+        }
+    }
+    if nt {
+        rec.nontrivial(&sig);
+    }
+    Ok(())
+}
+
+/// The canonical orderings of: context creation, directory creation, file creation / replacement /
+/// removal, look-up - for every file kind in both search locations
+fn late_orderings() -> Vec<LateCase> {
+    let mut out = vec![];
+    for t in 0..10usize {
+        let xdg = if t >= 8 { t == 9 } else { t / 4 == 1 };
+        let put = |v: u8| -> LCmd {
+            if t >= 8 {
+                LCmd::PutGrid { xdg, v }
+            } else if (t % 4) / 2 == 0 {
+                if t % 2 == 0 { LCmd::PutReg { xdg, a: Some(v), b: Some(v + 1), style: t as u8 * 5 + v } } else { LCmd::PutReg { xdg, a: None, b: Some(v), style: t as u8 * 5 + v } }
+            } else {
+                LCmd::PutRes { xdg, b: t % 2 == 1, v }
+            }
+        };
+        let del = || -> LCmd {
+            if t >= 8 {
+                LCmd::RmTree { xdg }
+            } else if (t % 4) / 2 == 0 {
+                LCmd::DelReg { xdg }
+            } else {
+                LCmd::DelRes { xdg, b: t % 2 == 1 }
+            }
+        };
+        let other = if t >= 8 { 17 - t } else { (t + 4) % 8 };
+        let put_other = |v: u8| -> LCmd {
+            if other >= 8 {
+                LCmd::PutGrid { xdg: !xdg, v }
+            } else if (other % 4) / 2 == 0 {
+                LCmd::PutReg { xdg: !xdg, a: Some(v), b: Some(v + 1), style: 1 }
+            } else {
+                LCmd::PutRes { xdg: !xdg, b: other % 2 == 1, v }
+            }
+        };
+        let sub = LCmd::MkDir { xdg, depth: if t >= 8 { 2 } else { 1 } };
+        let top = LCmd::MkDir { xdg, depth: 0 };
+        let look = |slot: u8, form: u8| LCmd::Look { slot, target: t as u8, form };
+        for with_new in [true, false] {
+            let new = |slot: u8| LCmd::NewCtx { slot, with_new };
+            let orders: Vec<Vec<LCmd>> = vec![
+                // context before the whole tree
+                vec![new(0), put(3), look(0, 0), look(0, 1)],
+                // look-ups in vain while the tree grows level by level
+                vec![new(0), look(0, 0), top.clone(), look(0, 0), sub.clone(), look(0, 1), put(5), look(0, 0), look(0, 2)],
+                // context after geodesy/, before the sub-directory
+                vec![top.clone(), new(0), put(7), look(0, 0)],
+                // context after the (empty) sub-directory, before the file
+                vec![sub.clone(), new(0), look(0, 0), put(9), look(0, 3)],
+                // tree before context
+                vec![put(11), new(0), look(0, 0)],
+                // file replaced between look-ups; a second, younger context
+                vec![new(0), put(13), look(0, 0), put(23), look(0, 0), new(1), look(1, 0), look(0, 1)],
+                // file removed, then written again
+                vec![new(0), put(15), look(0, 0), del(), look(0, 0), put(35), look(0, 0)],
+                // run-time registration first, file later: precedence; another context sees the file
+                vec![new(0), LCmd::RegRt { slot: 0, target: t as u8, v: 1 }, look(0, 0), put(17), look(0, 0), new(1), look(1, 0)],
+                // whole tree removed and rebuilt
+                vec![new(0), put(19), look(0, 0), LCmd::RmTree { xdg }, look(0, 0), new(1), put(49), look(0, 0), look(1, 0)],
+                // the OTHER search location exists when the context is created, this one does not
+                vec![put_other(21), new(0), put(51), look(0, 0), LCmd::Look { slot: 0, target: other as u8, form: 0 }],
+            ];
+            for cmds in orders {
+                out.push(LateCase { cmds });
+            }
+        }
+    }
+    out
+}
+
+fn arb_lcmd() -> impl Strategy<Value = LCmd> {
+    let ov = || prop::option::weighted(0.8, 0u8..100);
+    prop_oneof![
+        2 => (0u8..2, prop::bool::weighted(0.7)).prop_map(|(slot, with_new)| LCmd::NewCtx { slot, with_new }),
+        4 => (0u8..2, 0u8..4, prop::option::weighted(0.7, 0u8..100)).prop_map(|(slot, form, rewrite)| LCmd::Again { slot, form, rewrite }),
+        3 => (any::<bool>(), 0u8..3).prop_map(|(xdg, depth)| LCmd::MkDir { xdg, depth }),
+        4 => (any::<bool>(), ov(), ov(), 0u8..12).prop_map(|(xdg, a, b, style)| LCmd::PutReg { xdg, a, b, style }),
+        4 => (any::<bool>(), any::<bool>(), 0u8..100).prop_map(|(xdg, b, v)| LCmd::PutRes { xdg, b, v }),
+        3 => (any::<bool>(), 0u8..8).prop_map(|(xdg, v)| LCmd::PutGrid { xdg, v }),
+        1 => any::<bool>().prop_map(|xdg| LCmd::DelReg { xdg }),
+        1 => (any::<bool>(), any::<bool>()).prop_map(|(xdg, b)| LCmd::DelRes { xdg, b }),
+        1 => any::<bool>().prop_map(|xdg| LCmd::RmTree { xdg }),
+        1 => (0u8..2, 0u8..8, 0u8..100).prop_map(|(slot, target, v)| LCmd::RegRt { slot, target, v }),
+        14 => (0u8..2, 0u8..10, 0u8..8).prop_map(|(slot, target, form)| LCmd::Look { slot, target, form }),
+    ]
+}
+
+fn arb_late() -> impl Strategy<Value = LateCase> {
+    (prop::bool::weighted(0.6), prop::collection::vec(arb_lcmd(), 4..=16)).prop_map(|(ctx_first, mut cmds)| {
+        if ctx_first {
+            cmds.insert(0, LCmd::NewCtx { slot: 0, with_new: true });
+        }
+        LateCase { cmds }
+    })
+}
+
+/// The cases of the late-tree sections run one at a time (process-wide cwd); handing the lock from
+/// thread to thread costs a scheduling delay on a loaded machine, so the random histories come in
+/// batches (a failing batch shrinks to its one failing history).
+const LATE_BATCH: usize = 8;
+#[derive(Clone, Debug, Serialize, Deserialize)]
+struct LateBatch {
+    histories: Vec<LateCase>,
+}
+fn arb_late_batch() -> impl Strategy<Value = LateBatch> {
+    prop::collection::vec(arb_late(), LATE_BATCH).prop_map(|histories| LateBatch { histories })
+}
+fn run_late_batch(b: &LateBatch, rec: &mut Rec) -> CaseResult {
+    let _lock = LATE_LOCK.lock().unwrap_or_else(|e| e.into_inner());
+    for h in &b.histories {
+        run_late_locked(h, rec)?;
+        rec.count("histories", 1);
+    }
+    Ok(())
+}
+
+fn helm_k(k: i64) -> Step {
+    Step::Call { name: "helmert".into(), arg: Arg::Lit(k as i16), inv: false }
+}
+
+// =====================================================================================
 // 8. main
 // =====================================================================================
 
@@ -2787,6 +3724,8 @@ fn main() {
     run.assume("'$' forwarding on macro invocations, prefix 'inv', omit_fwd/omit_inv are left to C03/C04 and not generated; caller arguments are visible to every step of a macro body (documented), step-local values win");
     run.assume("inverse application of a definition containing a non-invertible user operator is unspecified and only checked for stability");
     run.assume("thread schedules are sampled by the OS, not enumerated");
+    run.assume("a user constructor's refusal is handed back unchanged (same Error variant and payload, compared by Debug text) at top level, from a pipeline step and from a macro body: the library propagates construction errors with `?` and documents no wrapping");
+    run.assume("registers and stand-alone resource files are read at every look-up (no documented caching; confirmed on the unchanged tree): a rewritten file is seen by the next look-up of every context, a removed one is gone; the search path elements ./geodesy and <data_local_dir>/geodesy need not exist when the context is created");
     run.assume("per-tuple references: a tuple applied together with others (any order) must come out as when applied alone; all generated definitions are free of stack operators, so this is implied by the property (behaviour independent of anything applied before)");
 
     let items = file_item_cases();
@@ -2813,6 +3752,23 @@ fn main() {
         check_builtin,
     );
 
+    // every built-in name x user constructors of every outcome x parameter texts x forms x {Minimal, Plain}
+    let names: Vec<String> = geodesy::verif_hooks::builtin_operator_names().iter().map(|s| s.to_string()).collect();
+    let nn = names.len();
+    run.enumerate(
+        "user-constructor-outcomes",
+        "EVERY name of verif_hooks::builtin_operator_names() x 34 user constructors registered under that name (accepting; `by` required, so that the library's own parameter parser refuses with MissingParam / BadParam; refusing ALWAYS with each of the 16 public Error variants - MissingParam, BadParam, General, Syntax, NotFound(own name / other), Unsupported, Invalid, Operator, Unknown, NonInvertible, Recursion, InvalidHeader, Unexpected, Io, Utf8Error; refusing with each variant UNLESS the step text gives `by`) x 5 parameter texts (the built-in's own valid parameters - the built-in would accept; none - many built-ins refuse; valid + by=7; valid + by=abc; valid + inv) x {stand-alone, pipeline step, macro body, step of a pipeline that is the body of a macro invoked as a pipeline step} x {Minimal, Plain}. The user constructor logs what it returned for which step text; oracle: the constructor IS called (documented order), op() returns Err exactly when it refused and then with exactly its error (Debug text), Ok exactly when it accepted and then with the user's behaviour (bitwise, both directions, model of the whole pipeline); the same for a second instantiation; after a further register_op under that name (accepting after refusing and vice versa) the constructor registered last decides. Whether the built-in of that name accepts the same text (fresh context) only labels the class",
+        nn * OUTCOME_KINDS * OUTCOME_TEXTS * OUTCOME_FORMS * 2,
+        move |i| {
+            let (a, r) = (i % nn, i / nn);
+            let (k, r) = (r % OUTCOME_KINDS, r / OUTCOME_KINDS);
+            let (t, r) = (r % OUTCOME_TEXTS, r / OUTCOME_TEXTS);
+            let (f, r) = (r % OUTCOME_FORMS, r / OUTCOME_FORMS);
+            OutcomeCase { name: names[a].clone(), kind: k as u8, text: t as u8, form: f as u8, plain: r % 2 == 1 }
+        },
+        check_outcome,
+    );
+
     // unknown names derived from every file item
     let item_names: Vec<String> = world().items.keys().cloned().collect();
     let ni = item_names.len();
@@ -2822,6 +3778,25 @@ fn main() {
         ni * 6 * 2 * 4,
         move |i| DerivedCase { item: item_names[i % ni].clone(), derivation: ((i / ni) % 6) as u8, plain: (i / (6 * ni)) % 2 == 1, form: (i / (12 * ni)) as u8 },
         check_derived,
+    );
+
+    // WHEN the tree and the files come into existence, relative to context creation and earlier look-ups
+    let lates = late_orderings();
+    let n_late = lates.len();
+    run.enumerate(
+        "late-tree-orderings",
+        "a directory tree of its own per case (cwd and XDG_DATA_HOME switched under a lock): {register item a, item b, stand-alone file a, b, grid} x {./geodesy, $XDG_DATA_HOME/geodesy} x {Plain::new, Plain::default} x 10 canonical orderings of context creation / directory creation (geodesy/, then resources/ or geoid/, created empty) / file creation / replacement / removal / look-up: context before the whole tree; look-ups in vain while the tree grows level by level; context after geodesy/ but before the sub-directory; after the empty sub-directory but before the file; tree before context; file replaced between two look-ups plus a younger context; file removed and written again; run-time registration before the file appears (precedence) plus a second context; tree removed and rebuilt; the other search location present at context creation, this one not. Oracle: a look-up finds exactly what the file system holds AT THE TIME OF THE LOOK-UP (bitwise behaviour of the distinguishable constant of that file version, both directions), an absent item is an error, every earlier handle is unchanged after every command; grids are cached by name once loaded (documented), so a grid name keeps its content and a removed grid may or may not be found",
+        n_late,
+        move |i| lates[i].clone(),
+        run_late,
+    );
+    let n = run.scale(1_000, 12_000) / LATE_BATCH;
+    run.section(
+        "late-tree-histories",
+        "batches of 8 random histories (4..=17 commands) over the same alphabet: new Plain context (2 slots), mkdir of an empty level, write / rewrite / remove register (items a, b present or not; LF, CR/LF, lone CR; terminated or not), stand-alone resource file, grid, remove the whole tree, run-time registration, look-up (stand-alone, pipeline step, through a run-time macro, inverted) in both search locations; oracle as in late-tree-orderings; non-trivial = a file found by a context that was created before the file (or its directory, or the whole tree) existed, or after the file was rewritten",
+        n,
+        arb_late_batch,
+        run_late_batch,
     );
 
     let general = Profile { grid_w: 2, w: [4, 12, 14, 10, 24, 8, 5, 4, 3, 2, 3, 14, 2], max_len: if run.is_thorough() { 100 } else { 40 } };
